@@ -286,7 +286,7 @@ async fn read_until_eof(s: &mut (impl AsyncReadExt + Unpin), want: usize, eof_wa
 
 /// returns problems (cause, symptom, detail)
 async fn e2e_case(w: &World, c: &E2eCase) -> Result<Vec<(String, String, String)>, String> {
-    let ip = Ipv4Addr::new(127, 66, (c.uniq >> 8) as u8, (c.uniq as u8).clamp(1, 254));
+    let ip = netkit::uniq_ip(66, c.uniq);
     let up = Pattern::new(c.uniq as u64, 1, 0).make(0, c.up_bytes);
     let down = Pattern::new(c.uniq as u64, 1, 1).make(0, c.down_bytes);
     // connect through the front-end; the target side is taken from the accept queue under a lock so
